@@ -25,6 +25,10 @@ func init() { Register(propC18{}) }
 
 func (propC18) ID() string { return "C18" }
 
+// function names for the function-table history: own names in several letter
+// cases plus two that collide with default functions (the default, added first, must win)
+var c18FnNames = []string{"Foo", "FOO", "foo", "bar_1", "Bar_1", "Max", "PI"}
+
 var c18Names = []string{"a", "A", "b", "Bee", "bEE", "x1", "X1", "_v", "total", "TOTAL", "Total"}
 
 func (propC18) Gen(r *Rand) *Plan {
@@ -35,7 +39,7 @@ func (propC18) Gen(r *Rand) *Plan {
 		if r.Bool(0.4) {
 			p.Scenario = "funccoll"
 		}
-		n := r.Range(3, 30)
+		n := r.Range(3, 30*Scale)
 		var ops []Op
 		for i := 0; i < n; i++ {
 			name := r.Pick(c18Names)
@@ -68,10 +72,16 @@ func (propC18) Gen(r *Rand) *Plan {
 		p.Tasks = []TaskPlan{{Ops: ops}}
 	case 2:
 		p.Scenario = "calc"
-		n := r.Range(2, 12)
+		n := r.Range(2, 12*Scale)
 		var ops []Op
 		for i := 0; i < n; i++ {
-			switch r.Weighted([]int{6, 2, 3, 2, 1, 5, 2}) {
+			switch r.Weighted([]int{6, 2, 3, 2, 1, 5, 2, 2, 1, 3}) {
+			case 7:
+				ops = append(ops, Op{Op: "addfn", S: r.Pick(c18FnNames)})
+			case 8:
+				ops = append(ops, Op{Op: "removefn", S: r.Pick(c18FnNames)})
+			case 9:
+				ops = append(ops, Op{Op: "callfn", S: flipCase(r, r.Pick(c18FnNames))})
 			case 0:
 				ops = append(ops, c18GenSetExpr(r))
 			case 1:
@@ -92,7 +102,7 @@ func (propC18) Gen(r *Rand) *Plan {
 		p.Tasks = []TaskPlan{{Ops: ops}}
 	default:
 		p.Scenario = "tmpl"
-		n := r.Range(2, 10)
+		n := r.Range(2, 10*Scale)
 		var ops []Op
 		for i := 0; i < n; i++ {
 			switch r.Weighted([]int{6, 2, 3, 2, 3}) {
@@ -509,6 +519,8 @@ func c18Calculator(ops []Op, run *Run, out *Outcome) int {
 	curSimple := false
 	curUnknownFn := ""
 	haveExpr := false
+	curFn := ""                                 // function called by the current expression when it was set by callfn
+	fnKnown := func(string) bool { return true } // set below, once the function model exists
 	compareDefaults := func(i int, o Op) bool {
 		dv := calc.DefaultVariables()
 		if dv.Length() != len(model) {
@@ -535,6 +547,10 @@ func c18Calculator(ops []Op, run *Run, out *Outcome) int {
 	}
 	checkEval := func(i int, o Op, coll []c18Entry, res *variants.Variant, err error) bool {
 		miss := missing(coll)
+		curUnknownFn := curUnknownFn
+		if curFn != "" && !fnKnown(curFn) {
+			curUnknownFn = curFn
+		}
 		code := ErrCode(err)
 		msg := ErrMessage(err)
 		if code == "VAR_NOT_FOUND" {
@@ -577,9 +593,98 @@ func c18Calculator(ops []Op, run *Run, out *Outcome) int {
 		}
 		return true
 	}
+	type fnEntry struct {
+		name string
+		id   int
+	}
+	var fnModel []fnEntry // custom functions appended after the defaults
+	nextFn := 1000
+	isDefault := func(name string) bool {
+		for _, d := range c08Names {
+			if strings.EqualFold(d, name) {
+				return true
+			}
+		}
+		return false
+	}
+	fnKnown = func(name string) bool {
+		if isDefault(name) {
+			return true
+		}
+		for _, f := range fnModel {
+			if strings.EqualFold(f.name, name) {
+				return true
+			}
+		}
+		return false
+	}
 	for i, o := range ops {
 		run.ResetOpSteps()
 		switch o.Op {
+		case "addfn":
+			if o.S == "" {
+				continue
+			}
+			nextFn++
+			calc.DefaultFunctions().Add(&c18Fn{name: o.S, id: nextFn})
+			fnModel = append(fnModel, fnEntry{o.S, nextFn})
+			changes++
+		case "removefn":
+			if isDefault(o.S) {
+				continue // keep the defaults in place: the model does not track them
+			}
+			calc.DefaultFunctions().RemoveByName(o.S)
+			for j, f := range fnModel {
+				if strings.EqualFold(f.name, o.S) {
+					fnModel = append(append([]fnEntry{}, fnModel[:j]...), fnModel[j+1:]...)
+					changes++
+					break
+				}
+			}
+		case "callfn":
+			if o.S == "" {
+				continue
+			}
+			args := "()"
+			if strings.EqualFold(o.S, "max") {
+				args = "(1, 2)"
+			}
+			if err := calc.SetExpression(o.S + args); err != nil {
+				out.Observations["setexpr_error"]++
+				haveExpr = false
+				continue
+			}
+			haveExpr, curVars, curSimple, curUnknownFn, curFn = true, nil, true, "", o.S
+			res, err := evalNoPanic(func() (*variants.Variant, error) { return calc.Evaluate() }, out)
+			want := -1
+			for _, f := range fnModel {
+				if strings.EqualFold(f.name, o.S) {
+					want = f.id
+					break
+				}
+			}
+			got := FromVariant(res)
+			switch {
+			case isDefault(o.S):
+				// the default function was added first and must win over any later custom one
+				if err == nil && got.T == "Integer" && got.I >= 1000 {
+					out.Violate("first-added-wins", "C18/calc/function-shadowed-default", "op %d: %s%s evaluated to %s: a custom function added later was called instead of the default one", i, o.S, args, got)
+					return changes
+				}
+				out.Probes["default_function_wins_checked"]++
+			case want >= 0:
+				if err != nil || got.T != "Integer" || int(got.I) != want {
+					out.Violate("first-added-wins", "C18/calc/function-resolution", "op %d: %s() gives %s err %v; the first function added under that name (case-insensitively) returns %d; functions %v", i, o.S, got, err, want, fnModel)
+					return changes
+				}
+				out.Probes["custom_function_resolved"]++
+			default:
+				if ErrCode(err) != "FUNC_NOT_FOUND" || !strings.Contains(strings.ToUpper(ErrMessage(err)), strings.ToUpper(o.S)) {
+					out.Violate("missing-function", "C18/calc/missing-function-not-reported", "op %d: no function %q exists (custom functions %v) but evaluation gave %s err %q", i, o.S, fnModel, got, ErrMessage(err))
+					return changes
+				}
+				out.Probes["func_not_found_named"]++
+			}
 		case "setexpr":
 			err := calc.SetExpression(o.S)
 			if err != nil {
@@ -592,6 +697,7 @@ func c18Calculator(ops []Op, run *Run, out *Outcome) int {
 				continue
 			}
 			haveExpr = true
+			curFn = ""
 			curVars, curSimple, curUnknownFn = o.Ss, o.S2 == "simple", ""
 			if o.J == 1 && len(o.Vs) > 0 {
 				curUnknownFn = o.Vs[0].S
